@@ -894,6 +894,9 @@ func round7(w *World, r *Report, prop string) {
 		r.guard("R02.12", func() { r6NoHandOver(w, r, "R02.12") })
 		r.Rule("R02.13", "the keys of a step are attached once, when all its predicates are complete: in the expression grammar PredicatesStart and PredicatesEnd enclose PredicateSet in the productions of Step, and no production of PredicateSet contains them", 1)
 		r.guard("R02.13", func() { r7PredicateSetBracketed(w, r, "R02.13") })
+	case "C01":
+		r.Rule("R01.11", "no function rounds by floor(x + 0.5): x + 0.5 is not representable for 0.49999999999999994 and for odd integers above 2^52, so every rounding in package xpath is floor(x) plus one when the fraction is at least one half (round() and both arguments of substring())", 2)
+		r.guard("R01.11", func() { r8NoFloorPlusHalf(w, r, "R01.11") })
 	case "C03":
 		r.Rule("R03.11", "acceptance does not depend on how many brackets came before: the expression lexer adds no state of its own to the common lexer (struct exprLex has the embedded CommonLex and nothing else)", 1)
 		r.guard("R03.11", func() { r7WrapperLexerStateless(w, r, "R03.11") })
@@ -1082,4 +1085,38 @@ func r7TokenEndDetected(w *World, r *Report, rule string) {
 		panic(undecided{"ConstructToken: return"})
 	}
 	r.Check(!bad.IsValid(), rule, "ConstructToken reads on or reports on every way out", firstValid(bad, f.Pos()), "Next() or SetError() before every return", "a way out of ConstructToken neither reads the next rune nor sets an error: the end of input inside a token goes unnoticed there (an opening quote as the last character of an expression yields the literal '' instead of an error)")
+}
+
+// r8NoFloorPlusHalf (R01.11): every call of math.Floor in package xpath is
+// looked at; none has an argument of the form x + 0.5.
+func r8NoFloorPlusHalf(w *World, r *Report, rule string) {
+	n := 0
+	for _, fn := range allFuncs(w.SSAPkg("xpath")) {
+		if isTestFile(w, fn.Pos()) {
+			continue
+		}
+		for _, b := range fn.Blocks {
+			for _, in := range b.Instrs {
+				c, ok := in.(*ssa.Call)
+				if !ok || c.Call.StaticCallee() == nil || c.Call.StaticCallee().String() != "math.Floor" || len(c.Call.Args) != 1 {
+					continue
+				}
+				n++
+				half := false
+				if bo, isBo := c.Call.Args[0].(*ssa.BinOp); isBo && bo.Op == token.ADD {
+					for _, side := range []ssa.Value{bo.X, bo.Y} {
+						if k, isK := side.(*ssa.Const); isK && k.Value != nil && k.Value.Kind() == constant.Float {
+							if f, _ := constant.Float64Val(k.Value); f == 0.5 {
+								half = true
+							}
+						}
+					}
+				}
+				r.Check(!half, rule, fmt.Sprintf("%s: math.Floor #%d", funcKey(fn), n), c.Pos(), "not of the form floor(x + 0.5)", "rounds by floor(x + 0.5): 0.49999999999999994 becomes 1 and odd integers above 2^52 move to the next even one, where XPath round() gives 0 and the integer itself")
+			}
+		}
+	}
+	if n == 0 {
+		panic(undecided{"package xpath: no use of math.Floor found"})
+	}
 }
